@@ -13,7 +13,8 @@
 (*     the case); a refused or failed operation stops the run.             *)
 (*                                                                         *)
 (* One action per source character (Inc Dec Left Right Out In Open Close   *)
-(* Comment), Halt at the end of the text, the environment actions          *)
+(* Comment), Accel (a whole linear loop at once, only for cases that ask   *)
+(* for it), Halt at the end of the text, the environment actions           *)
 (* OutRefused / InFailed / InAbsent, and Capped (model-checking bound).    *)
 (* The machine is deterministic once the case (program, width, input       *)
 (* stream, fault plan) is chosen in Init.                                  *)
@@ -68,9 +69,10 @@ VARIABLES c,        \* index of the case, chosen in Init
           snap, snapAt,  \* Brent snapshot and the step count of the next one
           snapEv,   \* number of events when the snapshot was taken
           div,      \* TRUE once the run is proved divergent
-          divSilent \* TRUE if the proved cycle emits no event (the run is silent for ever)
+          divSilent, \* TRUE if the proved cycle emits no event (the run is silent for ever)
+          jt        \* bracket table of the case: position of "[" <-> position of its "]"
 
-machine == <<c, pc, ptr, tape, ip, outN, evN, last, status, steps, lo, hi, snap, snapAt, snapEv, div, divSilent>>
+machine == <<c, pc, ptr, tape, ip, outN, evN, last, status, steps, lo, hi, snap, snapAt, snapEv, div, divSilent, jt>>
 
 Prog      == Cases[c].prog
 W         == Cases[c].w
@@ -92,10 +94,41 @@ MatchFrom(prog, i, stack, acc) ==
        THEN MatchFrom(prog, i + 1, Tail(stack),
                       (i :> Head(stack)) @@ (Head(stack) :> i) @@ acc)
   ELSE MatchFrom(prog, i + 1, stack, acc)
-Jump == [k \in 1..Len(Cases) |-> MatchFrom(Cases[k].prog, 1, <<>>, <<>>)]
+\* (The table is computed once per case, in Init, and carried in the state variable `jt': a
+\* function constructor [k \in .. |-> MatchFrom(..)] would be re-evaluated at every application,
+\* 50 ms for a program of 1 300 characters.)
+JumpOf(k) == MatchFrom(Cases[k].prog, 1, <<>>, <<>>)
 
 Min(a, b) == IF a < b THEN a ELSE b
 Max(a, b) == IF a > b THEN a ELSE b
+
+-----------------------------------------------------------------------------
+(* Linear loops.  A loop whose body consists of + - < > only, returns the    *)
+(* pointer to where it started and changes the cell under the pointer by     *)
+(* exactly -1 (or +1) per iteration performs no I/O and runs, from a counter *)
+(* value n # 0, exactly n (2^W - n) iterations, each adding the body's net   *)
+(* delta d[o] to the cell at offset o.  Its whole effect is therefore        *)
+(*     cell[o] += iterations * d[o]  (o # 0),   counter = 0,                 *)
+(* which the action Accel takes in one step when the case asks for it        *)
+(* (field accel = 1): runs whose canonical length is 2^32 steps and more     *)
+(* become checkable.  MCBF checks the summary against the step-by-step run   *)
+(* on every enumerated program (invariant AccelSound).                       *)
+Bump(d, o, k) == IF o \in DOMAIN d THEN [d EXCEPT ![o] = @ + k] ELSE (o :> k) @@ d
+\* effect of the straight-line text prog[i..j]: <<final offset, deltas, min offset, max offset>>,
+\* or <<>> if it contains anything but + - < >
+RECURSIVE BodyEffect(_, _, _, _, _, _, _)
+BodyEffect(prog, i, j, off, d, mn, mx) ==
+  IF i > j THEN <<off, d, mn, mx>>
+  ELSE IF prog[i] = ">" THEN BodyEffect(prog, i + 1, j, off + 1, d, mn, Max(mx, off + 1))
+  ELSE IF prog[i] = "<" THEN BodyEffect(prog, i + 1, j, off - 1, d, Min(mn, off - 1), mx)
+  ELSE IF prog[i] = "+" THEN BodyEffect(prog, i + 1, j, off, Bump(d, off, 1), mn, mx)
+  ELSE IF prog[i] = "-" THEN BodyEffect(prog, i + 1, j, off, Bump(d, off, -1), mn, mx)
+  ELSE <<>>
+\* the effect of the loop whose "[" is at p (closing bracket at j) if it is linear, else <<>>
+LoopEff(prog, p, j) ==
+  LET e == BodyEffect(prog, p + 1, j - 1, 0, <<>>, 0, 0) IN
+    IF e # <<>> /\ e[1] = 0 /\ 0 \in DOMAIN e[2] /\ e[2][0] \in {-1, 1} THEN e ELSE <<>>
+AccelCase(k) == "accel" \in DOMAIN Cases[k] /\ Cases[k].accel = 1
 
 Cell(p) == IF p \in DOMAIN tape THEN tape[p] ELSE CZero(W)
 \* tapes are kept normalised (no explicit zero entries), so that equal
@@ -119,16 +152,18 @@ Init ==
   /\ pc = 1 /\ ptr = 0 /\ tape = <<>> /\ ip = 1 /\ outN = 0 /\ evN = 0
   /\ last = NoEv /\ status = "run" /\ steps = 0 /\ lo = 0 /\ hi = 0
   /\ snap = <<>> /\ snapAt = 1 /\ snapEv = 0 /\ div = FALSE /\ divSilent = FALSE
+  /\ jt = JumpOf(c)
 
 Running == status = "run" /\ steps < MaxSteps /\ evN < MaxEv
 Op      == IF pc <= Len(Prog) THEN Prog[pc] ELSE "end"
 
-\* one machine step to the given successor configuration, emitting `e'
-Advance(pc2, ptr2, tape2, ip2, outN2, e) ==
+\* one machine step to the given successor configuration, emitting `e'; the pointer
+\* visited [loX, hiX] on the way (a single position except for an accelerated loop)
+AdvanceX(pc2, ptr2, tape2, ip2, outN2, e, loX, hiX) ==
   /\ pc' = pc2 /\ ptr' = ptr2 /\ tape' = tape2 /\ ip' = ip2 /\ outN' = outN2
   /\ last' = e /\ evN' = IF e = NoEv THEN evN ELSE evN + 1
   /\ steps' = steps + 1 /\ status' = "run"
-  /\ lo' = Min(lo, ptr2) /\ hi' = Max(hi, ptr2)
+  /\ lo' = Min(lo, loX) /\ hi' = Max(hi, hiX)
   /\ LET cfg == Config(pc2, ptr2, tape2, ip2, outN2) IN
        IF cfg = snap /\ ~div
        THEN /\ div' = TRUE
@@ -139,12 +174,13 @@ Advance(pc2, ptr2, tape2, ip2, outN2, e) ==
                  /\ snapEv' = (IF e = NoEv THEN evN ELSE evN + 1)
                  /\ UNCHANGED <<div, divSilent>>
             ELSE UNCHANGED <<snap, snapAt, snapEv, div, divSilent>>
-  /\ UNCHANGED c
+  /\ UNCHANGED <<c, jt>>
+Advance(pc2, ptr2, tape2, ip2, outN2, e) == AdvanceX(pc2, ptr2, tape2, ip2, outN2, e, ptr2, ptr2)
 
 \* the run ends in the given status, emitting `e'
 Finish(s, e) ==
   /\ status' = s /\ last' = e /\ evN' = IF e = NoEv THEN evN ELSE evN + 1
-  /\ UNCHANGED <<c, pc, ptr, tape, ip, outN, steps, lo, hi, snap, snapAt, snapEv, div, divSilent>>
+  /\ UNCHANGED <<c, pc, ptr, tape, ip, outN, steps, lo, hi, snap, snapAt, snapEv, div, divSilent, jt>>
 
 Silent(pc2, ptr2, tape2) == Advance(pc2, ptr2, tape2, ip, outN, NoEv)
 
@@ -152,10 +188,29 @@ Inc   == Running /\ Op = "+" /\ Silent(pc + 1, ptr, Put(ptr, CInc(Cell(ptr), W))
 Dec   == Running /\ Op = "-" /\ Silent(pc + 1, ptr, Put(ptr, CDec(Cell(ptr), W)))
 Right == Running /\ Op = ">" /\ Silent(pc + 1, ptr + 1, tape)
 Left  == Running /\ Op = "<" /\ Silent(pc + 1, ptr - 1, tape)
-Open  == Running /\ Op = "["
-         /\ Silent(IF CIsZero(Cell(ptr)) THEN Jump[c][pc] + 1 ELSE pc + 1, ptr, tape)
+\* the tape after the linear loop at `p' (effect eff) has run to completion from tape t, pointer q
+\* 0 <= n < 2^31 as a cell (TLC's integers are 32 bit: no power beyond 256^3 is formed)
+CSmall(n, w) == [i \in 1..NL(w) |-> IF i > 4 THEN 0 ELSE (n \div (Base(w) ^ (i - 1))) % Base(w)]
+CSigned(k, w) == IF k >= 0 THEN CSmall(k, w) ELSE CNeg(CSmall(-k, w), w)
+AccelTape(t, q, eff, w) ==
+  LET at(x)  == IF x \in DOMAIN t THEN t[x] ELSE CZero(w)
+      n      == IF eff[2][0] = -1 THEN at(q) ELSE CNeg(at(q), w)          \* number of iterations
+      new(x) == IF x = q THEN CZero(w)
+                ELSE IF (x - q) \in DOMAIN eff[2]
+                     THEN CAdd(at(x), CMul(n, CSigned(eff[2][x - q], w), w), w)
+                     ELSE at(x)
+      dom    == {x \in (DOMAIN t) \cup {q + o : o \in DOMAIN eff[2]} : ~CIsZero(new(x))}
+  IN [x \in dom |-> new(x)]
+Accelerable == /\ AccelCase(c) /\ Op = "[" /\ ~CIsZero(Cell(ptr))
+               /\ LoopEff(Prog, pc, jt[pc]) # <<>>
+Accel == /\ Running /\ Accelerable
+         /\ LET eff == LoopEff(Prog, pc, jt[pc]) IN
+              AdvanceX(jt[pc] + 1, ptr, AccelTape(tape, ptr, eff, W), ip, outN, NoEv,
+                       ptr + eff[3], ptr + eff[4])
+Open  == Running /\ Op = "[" /\ ~Accelerable
+         /\ Silent(IF CIsZero(Cell(ptr)) THEN jt[pc] + 1 ELSE pc + 1, ptr, tape)
 Close == Running /\ Op = "]"
-         /\ Silent(IF CIsZero(Cell(ptr)) THEN pc + 1 ELSE Jump[c][pc] + 1, ptr, tape)
+         /\ Silent(IF CIsZero(Cell(ptr)) THEN pc + 1 ELSE jt[pc] + 1, ptr, tape)
 Comment == Running /\ Op \notin {"+", "-", ">", "<", "[", "]", ".", ",", "end"}
            /\ Silent(pc + 1, ptr, tape)
 
@@ -179,7 +234,7 @@ InMissing == /\ Running /\ Op = "," /\ InAbsent
 Halt   == Running /\ Op = "end" /\ Finish("halted", NoEv)
 Capped == status = "run" /\ ~Running /\ Finish("capped", NoEv)
 
-Step == \/ Inc \/ Dec \/ Right \/ Left \/ Open \/ Close \/ Comment
+Step == \/ Inc \/ Dec \/ Right \/ Left \/ Open \/ Close \/ Comment \/ Accel
         \/ Out \/ OutRefused \/ In \/ InFailed \/ InMissing
         \/ Halt \/ Capped
 
